@@ -34,6 +34,7 @@ class History:
         schedrun.load()
         self.n, self.edges, self.hasdir = n, edges, list(hasdir)
         self.present, self.beh = list(present), list(beh)
+        self.echo = set()      # tasks that return an amended copy of their previous record (not a notion of Runs.tla: they are 'ok' / 'fail' tasks)
         self.workers = workers
         self.rng = random.Random(seed)
         self.root = root
@@ -41,7 +42,7 @@ class History:
         self.run = 0
         self.events = []
         self.listing = listing      # fixed order in which the job lists its tasks (None: shuffled per run)
-        self.cfg = dict(n=n, edges=[list(e) for e in edges], hasdir=list(hasdir), present=list(present), beh=list(beh))
+        self.cfg = dict(n=n, edges=[list(e) for e in edges], hasdir=list(hasdir), present=list(present), beh=list(beh), echo=[])
 
     # faults
     def flip(self, t, b):
@@ -105,6 +106,13 @@ class History:
                 if b == 'raise':
                     raise RuntimeError('probe fails')
                 upd = {self.name: {'payload': [self.idx, runno], 'nested': {'a': [self.idx, runno], 'b': {'c': runno}}}}
+                if self.idx in hist.echo:
+                    # an incremental task: it returns an amended copy of the record it finds under its own name (clocks and
+                    # status of its previous execution included); what the backend records must be this execution's
+                    try:
+                        upd = {self.name: dict(dict(env[self.name]), **upd[self.name])}
+                    except KeyError:
+                        pass
                 if hist.hasdir[self.idx - 1]:
                     d = os.path.join(hist.root, self.name)
                     os.makedirs(d, exist_ok=True)
@@ -216,6 +224,9 @@ def random_history(rng, n, runs, workers, root, p_fault=0.7, behs=('ok', 'ok', '
         present[0] = True
     beh = [rng.choice(behs) for _ in range(n)]
     h = History(n, edges, hasdir, present, beh, workers, rng.random(), root)
+    if rng.random() < 0.35:
+        h.echo = set(t for t in range(1, n + 1) if rng.random() < 0.6)
+        h.cfg['echo'] = sorted(h.echo)
     script = []
     for r in range(runs):
         h.do_run()
@@ -345,6 +356,7 @@ def replay_case(case):
     c = tr['cfg']
     root = tlc.workdir('c04replay')
     h = History(c['n'], c['edges'], c['hasdir'], c['present'], c['beh'], tr.get('workers', 1), 12345, root)
+    h.echo = set(c.get('echo') or [])
     ends = [e for e in tr['events'] if e['type'] == 'end']
     for e in tr['events']:
         if e['type'] == 'start':
